@@ -290,6 +290,7 @@ func genC01(c *Ctx) {
 			wireHists = append(wireHists, norm)
 		}
 	}
+	genC01Fresh(c)
 	// the same histories against the built binary
 	w, err := startWire()
 	if err != nil {
@@ -303,5 +304,109 @@ func genC01(c *Ctx) {
 		}
 		c.Count("wire.hist")
 		c.Emit("c01.hist", map[string]any{"notes": h, "impl": impl, "wire": true})
+	}
+}
+
+// ---- c01.fresh: the answers of inline completion follow the current text (second sentence of C01)
+
+func init() {
+	replayers["c01.fresh"] = func(c *Ctx, m map[string]any) map[string]any {
+		evs, _ := m["events"].([]any)
+		return map[string]any{"events": evs, "impl": runFreshImpl(evs)}
+	}
+}
+
+// freshText: version v of a document; every version gives the payee "Shop" a different
+// posting template, and ends with a header line followed by an empty line where inline
+// completion is requested.
+func freshText(v int) string {
+	return fmt.Sprintf("2024-01-01 Shop\n    expenses:v%d  %d USD\n    assets:cash\n\n2024-02-01 Shop\n\n", v, v+1)
+}
+
+func inlineAnswer(srv *server.Server, uri string) string {
+	raw, _ := json.Marshal(map[string]any{"textDocument": map[string]any{"uri": uri}, "position": map[string]any{"line": 5, "character": 0}})
+	res, err := srv.InlineCompletion(context.Background(), raw)
+	if err != nil || res == nil {
+		return "none"
+	}
+	b, _ := json.Marshal(res)
+	return string(b)
+}
+
+// runFreshImpl replays change / save / close / inline events on one real server.  For every
+// inline request it reports which VERSION of the document the answer corresponds to (the
+// version whose text, opened on a fresh server, yields the same answer; -1 when the document
+// is closed or nothing matches).
+func runFreshImpl(evs []any) []any {
+	srv := server.NewServer()
+	ctx := context.Background()
+	out := []any{}
+	seen := map[string][]int{} // versions a document went through
+	for _, e := range evs {
+		m := e.(map[string]any)
+		u := fmt.Sprintf("file:///hlverif-fresh/d%d.journal", toInt(m["u"]))
+		switch m["k"] {
+		case "change":
+			v := toInt(m["v"])
+			if len(seen[u]) == 0 || !toBool(m["open"]) {
+				_ = srv.DidOpen(ctx, &protocol.DidOpenTextDocumentParams{TextDocument: protocol.TextDocumentItem{URI: protocol.DocumentURI(u), Text: freshText(v)}})
+			} else {
+				_ = srv.DidChangeRaw(ctx, &server.DidChangeRawParams{
+					TextDocument:   protocol.VersionedTextDocumentIdentifier{TextDocumentIdentifier: protocol.TextDocumentIdentifier{URI: protocol.DocumentURI(u)}},
+					ContentChanges: []server.ContentChange{{Text: freshText(v)}}})
+			}
+			seen[u] = append(seen[u], v)
+		case "save":
+			_ = srv.DidSave(ctx, &protocol.DidSaveTextDocumentParams{TextDocument: protocol.TextDocumentIdentifier{URI: protocol.DocumentURI(u)}})
+		case "close":
+			_ = srv.DidClose(ctx, &protocol.DidCloseTextDocumentParams{TextDocument: protocol.TextDocumentIdentifier{URI: protocol.DocumentURI(u)}})
+		case "inline":
+			ans := inlineAnswer(srv, u)
+			got := -1
+			if _, open := srv.GetDocument(protocol.DocumentURI(u)); open {
+				for _, v := range seen[u] {
+					fresh := server.NewServer()
+					_ = fresh.DidOpen(ctx, &protocol.DidOpenTextDocumentParams{TextDocument: protocol.TextDocumentItem{URI: protocol.DocumentURI(u), Text: freshText(v)}})
+					if inlineAnswer(fresh, u) == ans {
+						got = v
+					}
+				}
+			}
+			out = append(out, got)
+		}
+	}
+	return out
+}
+
+func toBool(v any) bool { b, _ := v.(bool); return b }
+
+func genC01Fresh(c *Ctx) {
+	r := c.R
+	for i := 0; i < c.N(300, 6000); i++ {
+		var evs []any
+		open := map[int]bool{}
+		ver := 0
+		n := 2 + r.IntN(c.N(10, 30))
+		for j := 0; j < n; j++ {
+			u := r.IntN(2)
+			switch x := r.IntN(10); {
+			case !open[u] || x < 3:
+				ver++
+				evs = append(evs, map[string]any{"k": "change", "u": u, "v": ver, "open": open[u]})
+				open[u] = true
+			case x < 4:
+				evs = append(evs, map[string]any{"k": "save", "u": u})
+			case x < 5:
+				evs = append(evs, map[string]any{"k": "close", "u": u})
+				open[u] = false
+			default:
+				evs = append(evs, map[string]any{"k": "inline", "u": u})
+			}
+		}
+		raw, _ := marshal(evs)
+		var norm []any
+		_ = segjson.Unmarshal(raw, &norm)
+		c.Count("fresh.hist")
+		c.Emit("c01.fresh", map[string]any{"events": norm, "impl": runFreshImpl(norm)})
 	}
 }
